@@ -198,30 +198,32 @@ theorem prefix_match_spec :
   · have hspec := GrpcProofs.Lemmas.RBAC.shift_xor_zero_iff a b n hn
     have hmask : Pfx.contains (.v4 (maskTop a n) n) (.v4 b) = Pfx.contains (.v4 a n) (.v4 b) := by
       simp only [Pfx.contains]
-      rw [Bool.eq_iff_iff, contains_iff_shr, contains_iff_shr]
+      rw [Bool.eq_iff_iff]
+      refine (contains_iff_shr (maskTop a n) b _).trans (Iff.trans ?_ (contains_iff_shr a b _).symm)
       unfold maskTop
       rw [shl_shr_cancel]
     refine ⟨?_, ?_, ?_⟩
     · simp only [matchSize, Pfx.contains]
       rw [← hspec]
-      split <;> simp_all
+      exact (ite_some_iff _ _).1
     · simp only [matchSize, Pfx.contains]
       rw [← hspec]
-      split <;> simp_all
+      exact (ite_some_iff _ _).2
     · simp only [matchSize, hmask]
   · have hspec := GrpcProofs.Lemmas.RBAC.shift_xor_zero_iff a b n hn
     have hmask : Pfx.contains (.v6 (maskTop a n) n) (.v6 b) = Pfx.contains (.v6 a n) (.v6 b) := by
       simp only [Pfx.contains]
-      rw [Bool.eq_iff_iff, contains_iff_shr, contains_iff_shr]
+      rw [Bool.eq_iff_iff]
+      refine (contains_iff_shr (maskTop a n) b _).trans (Iff.trans ?_ (contains_iff_shr a b _).symm)
       unfold maskTop
       rw [shl_shr_cancel]
     refine ⟨?_, ?_, ?_⟩
     · simp only [matchSize, Pfx.contains]
       rw [← hspec]
-      split <;> simp_all
+      exact (ite_some_iff _ _).1
     · simp only [matchSize, Pfx.contains]
       rw [← hspec]
-      split <;> simp_all
+      exact (ite_some_iff _ _).2
     · simp only [matchSize, hmask]
 
 /-! ### F16: a listener not bound to the wildcard address
@@ -255,8 +257,8 @@ example : ∃ t, build false f16Chains = .ok t ∧ lookup t false { f16Conn 1 wi
   ⟨_, rfl, by decide⟩
 example : ∃ t, build true f16Chains = .ok t ∧
     lookup t true ⟨true, .v4 0x0a000001#32, .v4 0x0a000002#32, 9⟩ = .dflt := ⟨_, rfl, by decide⟩
-example : build false (f16Chains ++ [⟨false, false, 0, false, 0, [], [], [3]⟩]) = .error .overlap := by decide
-example : build false [⟨false, false, 0, false, 0, [.v4 0#32 33], [], []⟩] = .error .prefix := by decide
-example : build false [⟨true, false, 0, false, 0, [], [], []⟩] = .error .empty := by decide
+example : build false (f16Chains ++ [⟨false, false, 0, false, 0, [], [], [3]⟩]) = .error .overlap := by rfl
+example : build false [⟨false, false, 0, false, 0, [.v4 0#32 33], [], []⟩] = .error .prefix := by rfl
+example : build false [⟨true, false, 0, false, 0, [], [], []⟩] = .error .empty := by rfl
 
 end GrpcProofs.C49
